@@ -359,6 +359,56 @@ Ok(uv_from_bytes_(bytes))
 //@end
 }
 
+// ---- the plain f32 codec: size check and length for every byte length (C16 / C05 cross-check of the Kani harness at <= 12 bytes) ----
+pub struct UnalignedVectorF32 { pub vector: Vec<u8> }
+#[verifier::external_body]
+pub fn uvf_from_bytes_(bytes: &[u8]) -> (r: UnalignedVectorF32) ensures r.vector@ == bytes@ { unimplemented!() }
+/// `size_of::<f32>()`
+pub fn size_of_f32_() -> (r: usize) ensures r == 4 { 4 }
+pub struct F32Codec;
+impl F32Codec {
+//@extract src/unaligned_vector/f32.rs | impl UnalignedVectorCodec for f32 | from_bytes
+//@subst
+<<<
+fn from_bytes(bytes: &[u8]) -> Result<Cow<UnalignedVector<Self>>, SizeMismatch>
+===
+pub fn from_bytes(bytes: &[u8]) -> Result<UnalignedVectorF32, SizeMismatch>
+>>>
+//@subst
+<<<
+size_of::<f32>()
+===
+size_of_f32_()
+>>>
+//@subst
+<<<
+Ok(cow_borrowed({ transmute::<&[u8], &UnalignedVector<f32>>(bytes) }))
+===
+Ok(uvf_from_bytes_(bytes))
+>>>
+//@spec
+    ensures
+        bytes@.len() % 4 == 0 ==> r is Ok && r->Ok_0.vector@ == bytes@,
+        bytes@.len() % 4 != 0 ==> r is Err && r->Err_0.rem == bytes@.len() % 4,
+//@end
+//@extract src/unaligned_vector/f32.rs | impl UnalignedVectorCodec for f32 | len
+//@subst
+<<<
+fn len(vec: &UnalignedVector<Self>)
+===
+pub fn len(vec: &UnalignedVectorF32)
+>>>
+//@subst
+<<<
+size_of::<f32>()
+===
+size_of_f32_()
+>>>
+//@spec
+    ensures r == vec.vector@.len() / 4,
+//@end
+}
+
 /// C12, read-back: what `iter` yields from the bytes `from_slice_non_optimized` stored is, position by position, the sign of the
 /// input component, and -1 (bit false) in the padding up to the next multiple of 64
 pub proof fn lemma_read_back(s: Seq<f32>, stored: Seq<u8>, it: BinaryQuantizedIterator)
